@@ -321,3 +321,46 @@ Proof.
   split; [vm_compute; reflexivity|]. split; [reflexivity|]. split; [vm_compute; reflexivity|].
   split; vm_compute; reflexivity.
 Qed.
+
+(* ---- trees: drop and re-open anywhere in a history, bytes and API answers
+   only (Avl/EndToEnd.v; [ops_fit] is spelled out in C10_avl_reader_defs) ---- *)
+From Stevia Require Avl.Master.
+From Stevia Require Import Avl.EndToEnd.
+
+(* For a u8 or u32 tree, any key and value types of positive size, any
+   initial capacity an index word can hold, and any history ops1 ++ ops2 with
+   admissible growth whose arguments fit the key and value fields: running
+   ops1, taking the bytes, decoding them into a new handle and running ops2 on
+   it returns normally everywhere, gives call by call the answers of the
+   uninterrupted run, and ends in the same bytes. *)
+Theorem C04_avl_history_reopen : forall wbytes lay,
+  wbytes = 1%nat \/ wbytes = 4%nat -> 0 < ksz lay -> 0 < vsz lay ->
+  forall capacity ops1 ops2,
+  capacity < 2 ^ bits_of wbytes -> (bits_of wbytes <> 8 -> capacity + 1 < 2 ^ bits_of wbytes) ->
+  Master.growth_ok (bits_of wbytes) (spec_init capacity) (ops1 ++ ops2) -> ops_fit lay (ops1 ++ ops2) ->
+  exists s1 s1' sf sf' outs,
+    final_c (bits_of wbytes) (init_c capacity capacity) ops1 = Ok s1 /\
+    decode wbytes lay (encode wbytes lay s1) = Some s1' /\
+    final_c (bits_of wbytes) s1' ops2 = Ok sf' /\
+    final_c (bits_of wbytes) (init_c capacity capacity) (ops1 ++ ops2) = Ok sf /\
+    run_c (bits_of wbytes) (init_c capacity capacity) (ops1 ++ ops2) = map Ok outs /\
+    run_c (bits_of wbytes) (init_c capacity capacity) ops1 ++ run_c (bits_of wbytes) s1' ops2 = map Ok outs /\
+    encode wbytes lay sf' = encode wbytes lay sf.
+Proof. exact history_reopen. Qed.
+Print Assumptions C04_avl_history_reopen.
+
+Theorem C04_avl_growth_ok_def : forall bits a o r,
+  (Master.growth_ok bits a [] <-> True) /\
+  (Master.growth_ok bits a (o :: r) <->
+     (forall n, o = OExt n -> snrec a + n + 1 < 2 ^ bits) /\ Master.growth_ok bits (fst (spec_step a o)) r).
+Proof. exact (fun bits a o r => conj (iff_refl _) (iff_refl _)). Qed.
+Print Assumptions C04_avl_growth_ok_def.
+
+(* the hypotheses are satisfiable: the history of C04_avl_example split after
+   five operations, capacity 9 *)
+Example C04_avl_history_reopen_example :
+  let ops1 := [OInsert 10 100; OInsert 20 200; OInsert 30 300; OInsert 40 400; OInsert 50 500]%Z in
+  let ops2 := [OInsert 60 600; OInsert 70 700; OInsert 45 450; ORemove 20]%Z in
+  9 < 2 ^ bits_of 1 /\ Master.growth_ok (bits_of 1) (spec_init 9) (ops1 ++ ops2) /\
+  ops_fit ex_lay8 (ops1 ++ ops2).
+Proof. exact e2e_example_hyps. Qed.
